@@ -4,6 +4,7 @@
 package cases
 
 import (
+	"encoding/json"
 	"sort"
 	"strconv"
 	"strings"
@@ -17,6 +18,46 @@ type sq struct{ s int64 }
 
 func (r rect) area() int64 { return r.w * r.h }
 func (s *sq) area() int64  { return s.s * s.s }
+
+type jinner struct {
+	A int64  `json:"a"`
+	B string `json:"b,omitempty"`
+	c int
+}
+
+type jcustom struct{ n int64 }
+
+func (c jcustom) MarshalJSON() ([]byte, error) { return []byte(`"c` + strconv.FormatInt(c.n, 10) + `"`), nil }
+func (c *jcustom) UnmarshalJSON(b []byte) error {
+	n, err := strconv.ParseInt(string(b[2:len(b)-1]), 10, 64)
+	c.n = n
+	return err
+}
+
+type jouter struct {
+	Name   string                      `json:"name"`
+	N      int64                       `json:"n,omitempty"`
+	P      *jinner                     `json:"p,omitempty"`
+	L      []jinner                    `json:"l"`
+	M      map[string]int64            `json:"m,omitempty"`
+	Raw    map[string]*json.RawMessage `json:"raw,omitempty"`
+	C      jcustom                     `json:"c"`
+	Skip   int                         `json:"-"`
+	Any    interface{}                 `json:"any,omitempty"`
+	Quoted int64                       `json:"quoted,string"`
+	jinner
+}
+
+func hashStr(s string) int64 {
+	h := int64(1469598103934665603)
+	for i := 0; i < len(s); i++ {
+		h = (h ^ int64(s[i])) * 1099511628211
+	}
+	return h
+}
+
+// Debug makes some cases print intermediate values.
+var Debug = false
 
 // Cases maps a name to func(x, y int64) int64.
 var Cases = map[string]func(x, y int64) int64{
@@ -210,6 +251,60 @@ var Cases = map[string]func(x, y int64) int64{
 		u := strconv.FormatUint(uint64(y), 16)
 		m, _ := strconv.ParseUint(u, 16, 64)
 		return n ^ int64(m)
+	},
+	"json": func(x, y int64) int64 {
+		// (1) fully concrete document: the text must be byte-identical to encoding/json's
+		raw := json.RawMessage(`{"k":[1,2,"<x>"]}`)
+		c := jouter{Name: "n<&>\u00e9\"q", N: 5, L: []jinner{{A: 17, B: "b"}, {A: 2}},
+			M: map[string]int64{"z": 1, "a": 50}, Raw: map[string]*json.RawMessage{"r": &raw}, C: jcustom{4321},
+			Skip: 9, Any: map[string]interface{}{"q": []interface{}{true, nil, "s", 1.5}}, Quoted: 998, jinner: jinner{A: 7, B: "emb"}}
+		c.P = &jinner{A: 33}
+		cb, err := json.Marshal(c)
+		if err != nil {
+			return -1
+		}
+		var cback jouter
+		if err := json.Unmarshal(cb, &cback); err != nil {
+			return -2
+		}
+		cb2, _ := json.Marshal(cback)
+		var g map[string]interface{}
+		if err := json.Unmarshal(cb, &g); err != nil {
+			return -3
+		}
+		gb, _ := json.Marshal(g)
+		if Debug {
+			println("CB ", string(cb))
+			println("CB2", string(cb2))
+			println("GB ", string(gb))
+		}
+		r := hashStr(string(cb)) ^ hashStr(string(cb2))*3 ^ hashStr(string(gb))*5 ^ int64(len(g))
+		// (2) data depending on the inputs: values must survive the round trip
+		o := jouter{Name: "n" + strconv.FormatInt(x%100, 10), N: y % 7, L: []jinner{{A: x % 1000}}, M: map[string]int64{"a": y % 50},
+			C: jcustom{x % 10000}, Quoted: y % 999, jinner: jinner{A: x % 13}}
+		if x%2 == 0 {
+			o.P = &jinner{A: y % 33}
+		}
+		b, err := json.Marshal(o)
+		if err != nil {
+			return -4
+		}
+		var back jouter
+		if err := json.Unmarshal(b, &back); err != nil {
+			return -5
+		}
+		if back.P != nil {
+			r += back.P.A
+		}
+		r += back.C.n + back.Quoted*5 + back.M["a"] + back.jinner.A + back.L[0].A*3 + back.N + int64(len(back.Name))
+		var bad jouter
+		if json.Unmarshal([]byte(`{"n":"notanumber"}`), &bad) == nil {
+			r += 1 << 50
+		}
+		if json.Unmarshal([]byte(`{"NAME":"ci","l":[{"a":1}],"unknown":3}`), &bad) != nil || bad.Name != "ci" || len(bad.L) != 1 {
+			r += 1 << 51
+		}
+		return r
 	},
 	"variadic": func(x, y int64) int64 {
 		sum := func(v ...int64) (s int64) { for _, e := range v { s += e }; return }
